@@ -1,5 +1,29 @@
-//! Conformance harness for property C19, see /verif/DESIGN.md.
+//! Conformance harness for property C19 (simulated OS vs real OS), see
+//! /verif/DESIGN.md section 6 and spec/Kernel.tla.
+mod calls;
+
 fn main() {
-    eprintln!("yv-c19: not implemented yet");
-    std::process::exit(2);
+    // children first: the mirror / true-entry-point shell of yvcommon::real and
+    // the batch child of the system-call level replay
+    yvcommon::real::maybe_child_main();
+    if std::env::var("YV_C19_CHILD").as_deref() == Ok("calls") {
+        // SAFETY: single-threaded at this point
+        unsafe { std::env::remove_var("YV_C19_CHILD") };
+        calls::batch_child_main();
+    }
+    let args: Vec<String> = std::env::args().collect();
+    if args.len() < 2 {
+        eprintln!("usage: yv-c19 <replay|random|scripts|redo> ...");
+        std::process::exit(2);
+    }
+    yvcommon::util::quiet_panics();
+    let rest = &args[2..];
+    let code = match args[1].as_str() {
+        "replay" => calls::replay(rest),
+        other => {
+            eprintln!("unknown subcommand {other}");
+            2
+        }
+    };
+    std::process::exit(code);
 }
